@@ -24,7 +24,8 @@ for sid in ids:
             det[c]={"exit":int(code),"detected":code=="1"}
             if pending: det[c]["first_reason"]=pending[0]
             pending=[]
-    results[sid]={"property":meta["property"],"repo_head":head,"tier":"quick","seed":0,"checks":det,
+    inconclusive=[c for c,v in det.items() if v["exit"] not in (0,1)]
+    results[sid]={"property":meta["property"],"inconclusive":inconclusive,"repo_head":head,"tier":"quick","seed":0,"checks":det,
                   "detected_by":[c for c,v in det.items() if v["detected"]],"wall_s":round(time.time()-t0,1)}
     print(sid,results[sid]["detected_by"],flush=True)
     json.dump(results,open(V+"/seeded/RESULTS.json","w"),indent=1,ensure_ascii=False)
